@@ -90,19 +90,61 @@ def st_strchr(I, p, c):
     b = I.mem.cstring(p); k = b.find(bytes([c & 255]))
     if c & 255 == 0: return Ptr(p.obj, p.off + len(b))
     return NULL if k < 0 else Ptr(p.obj, p.off + k)
+def _cmp_tokens(I, p, n):
+    """bytes of [p, p+n) as comparable tokens: int / BV8 / UNINIT / ('ptr', Ptr, byte index)"""
+    o = I.mem.obj(p, n)
+    out = []; k = p.off; end = p.off + n
+    while k < end:
+        c = None
+        for q in range(k - 7, k + 1):
+            e = o.cells.get(q)
+            if e is not None and q + e[0] > k: c = (q, e); break
+        if c is not None and isinstance(c[1][1], Ptr) and not (c[1][1].obj == 0 and c[1][1].off == 0):
+            out.append(('ptr', c[1][1], k - c[0])); k += 1; continue
+        out.append(I.mem.byte_at(o, k)); k += 1
+    return out
 def st_memcmp(I, a, b, n):
     n = _len(I, n, 'memcmp n')
     if n == 0: return 0
-    x = I.mem.read_bytes(a, n); y = I.mem.read_bytes(b, n)
+    oa = I.mem.obj(a, n); ob = I.mem.obj(b, n)
     conds = []
-    for p, q in zip(x, y):
+    k = 0
+    while k < n:
+        ca = oa.cells.get(a.off + k); cb = ob.cells.get(b.off + k)
+        if ca is not None and cb is not None and ca[0] == cb[0] and k + ca[0] <= n:
+            # whole-cell fast path
+            x, y = ca[1], cb[1]
+            if isinstance(x, Ptr) or isinstance(y, Ptr):
+                if isinstance(x, Ptr) and x.obj == 0: x = x.off
+                if isinstance(y, Ptr) and y.obj == 0: y = y.off
+                if isinstance(x, Ptr) or isinstance(y, Ptr):
+                    if x == y: k += ca[0]; continue
+                    return 1              # different addresses: the bytes differ
+            if isinstance(x, float): x = f2bits(x)
+            if isinstance(y, float): y = f2bits(y)
+            if isinstance(x, int) and isinstance(y, int):
+                if x != y:
+                    xb = x.to_bytes(ca[0], 'little'); yb = y.to_bytes(ca[0], 'little')
+                    return (1 if xb > yb else -1) & 0xffffffff
+                k += ca[0]; continue
+            if z3.is_expr(x) and z3.is_expr(y) and x.eq(y): k += ca[0]; continue
+            if z3.is_expr(x) and z3.is_bool(x): x = z3.If(x, z3.BitVecVal(1, 8 * ca[0]), z3.BitVecVal(0, 8 * ca[0]))
+            if z3.is_expr(y) and z3.is_bool(y): y = z3.If(y, z3.BitVecVal(1, 8 * ca[0]), z3.BitVecVal(0, 8 * ca[0]))
+            if z3.is_expr(x) and z3.is_fp(x): x = z3.fpToIEEEBV(x)
+            if z3.is_expr(y) and z3.is_fp(y): y = z3.fpToIEEEBV(y)
+            if isinstance(x, int): x = z3.BitVecVal(x, 8 * ca[0])
+            if isinstance(y, int): y = z3.BitVecVal(y, 8 * ca[0])
+            conds.append(x == y); k += ca[0]; continue
+        p = _cmp_tokens(I, Ptr(a.obj, a.off + k), 1)[0]; q = _cmp_tokens(I, Ptr(b.obj, b.off + k), 1)[0]
+        k += 1
+        if isinstance(p, tuple) or isinstance(q, tuple):
+            if isinstance(p, tuple) and isinstance(q, tuple) and p[1] == q[1] and p[2] == q[2]: continue
+            return 1
         if p is E.UNINIT or q is E.UNINIT:
-            # comparing padding / uninitialised bytes: nondeterministic result
             I.nondet += 1
             conds.append(z3.Bool('memcmp_uninit!%d' % I.nondet)); continue
         if isinstance(p, int) and isinstance(q, int):
-            if p != q:
-                return (1 if p > q else -1) & 0xffffffff
+            if p != q: return (1 if p > q else -1) & 0xffffffff
             continue
         conds.append((z3.BitVecVal(p, 8) if isinstance(p, int) else p) == (z3.BitVecVal(q, 8) if isinstance(q, int) else q))
     if not conds: return 0
@@ -224,7 +266,7 @@ def _h(I, f):
 def _fwrite_bytes(I, h, data):
     node = h['node']
     if h['append']: h['pos'] = node.length
-    I.mem.set_bytes(Ptr(node.ptr.obj, h['pos']), data)
+    I.mem.set_bytes(Ptr(node.ptr.obj, node.ptr.off + h['pos']), data)
     node.writes.append((h['pos'], len(data)))
     h['pos'] += len(data); node.length = max(node.length, h['pos'])
 def st_fwrite(I, p, size, n, f):
@@ -234,7 +276,7 @@ def st_fwrite(I, p, size, n, f):
     node = h['node']
     if h['append']: h['pos'] = node.length
     if h['pos'] + tot > FILE_CAP: raise Unsupported("model file too large")
-    I.mem.copy(Ptr(node.ptr.obj, h['pos']), p, tot)
+    I.mem.copy(Ptr(node.ptr.obj, node.ptr.off + h['pos']), p, tot)
     node.writes.append((h['pos'], tot))
     h['pos'] += tot; node.length = max(node.length, h['pos'])
     return n
@@ -254,7 +296,7 @@ def st_fread(I, p, size, n, f):
         avail_items = min(n, avail // size) if size else 0
     tot = avail_items * size
     if tot:
-        I.mem.copy(p, Ptr(node.ptr.obj, h['pos']), tot)
+        I.mem.copy(p, Ptr(node.ptr.obj, node.ptr.off + h['pos']), tot)
     # a short read still consumes the partial item (position moves to EOF); callers here only test the count
     if avail_items < n:
         if isinstance(ln, int): h['pos'] = max(h['pos'], ln) if ln >= h['pos'] else h['pos']
@@ -283,14 +325,21 @@ def st_fgets(I, buf, n, f):
     out = bytearray()
     o = I.mem.objs[node.ptr.obj]
     while len(out) < n - 1 and h['pos'] < node.length:
-        b = I.mem.byte_at(o, h['pos'])
+        b = I.mem.byte_at(o, node.ptr.off + h['pos'])
         if not isinstance(b, int): raise Unsupported("fgets of symbolic byte")
         out.append(b); h['pos'] += 1
         if b == 10: break
     if not out: return NULL
     I.mem.set_bytes(buf, bytes(out) + b'\0'); return buf
+class BufNode:
+    """read-only stream over a caller-owned buffer (fmemopen)"""
+    def __init__(s, buf, n):
+        s.name = 'fmemopen'; s.ptr = buf; s.length = n; s.writes = []
 def st_fmemopen(I, buf, n, mode):
-    raise Unsupported("fmemopen")
+    n = _len(I, n, 'fmemopen size')
+    m = I.mem.cstring(mode).decode()
+    if m[0] != 'r': raise Unsupported("fmemopen for writing")
+    return _open(I, BufNode(buf, n), m)
 def st_access(I, path, mode):
     return 0 if I.mem.cstring(path).decode() in _fs(I).files else 0xffffffff
 def st_stat(I, path, st):
